@@ -642,7 +642,9 @@ func mustB64(s string) []byte {
 	return []byte(c.expr())
 }
 
-var cliBadInputs = []string{"", " ", "{", "[1,", "{\"a\":}", "nul", "tru", "1 2", "{} x", "[1] [2]", "'a'", "{'a':1}", "\xff", "[\"\xff\"]", "NaN", "1e999", "{\"a\":1}}"}
+var cliBadInputs = []string{"", " ", "{", "[1,", "{\"a\":}", "nul", "tru", "1 2", "{} x", "[1] [2]", "'a'", "{'a':1}", "\xff", "[\"\xff\"]", "NaN", "1e999", "{\"a\":1}}",
+	// a byte order mark in front of the text (encoding/json does not accept one), with well-formed and malformed remainders
+	"\xef\xbb\xbf{\"a\":1}", "\xef\xbb\xbf[1,2]", "\xef\xbb\xbf", "\xef\xbb\xbf{", "\xef\xbb\xbf[1,", "\xef\xbb\xbf{} x", "\xef\xbb\xbfnull", "\ufeff1", "\xff\xfe[\x001\x00]\x00", "{\"a\":1e999}", "[1,2e400]", "-1e999"}
 
 func TestC19(t *testing.T) {
 	if jpgoPath() == "" {
